@@ -31,6 +31,18 @@ func storeToField(in ssa.Instruction, typ, field string) (*ssa.FieldAddr, ssa.Va
 
 // isIncDec: in stores X.field = X.field ± 1 (delta +1 or -1).
 func isIncDec(in ssa.Instruction, field string, delta int) bool {
+	// the atomic form: x.field.Add(±1) on a sync/atomic integer
+	if cl, isCall := in.(*ssa.Call); isCall {
+		if g := cl.Call.StaticCallee(); g != nil && g.Name() == "Add" && g.Pkg != nil && g.Pkg.Pkg.Path() == "sync/atomic" && len(cl.Call.Args) == 2 {
+			if fa, isFA := core.Strip(cl.Call.Args[0]).(*ssa.FieldAddr); isFA {
+				if _, f := core.FieldAddrName(fa); f == field {
+					if k, isK := core.ConstInt(cl.Call.Args[1]); isK && ((delta > 0 && k == 1) || (delta < 0 && k == -1)) {
+						return true
+					}
+				}
+			}
+		}
+	}
 	fa, v, ok := storeToField(in, "", field)
 	if !ok {
 		return false
@@ -140,6 +152,30 @@ func C08(c *core.Ctx) {
 	p := c.P
 	defer c08Round4b(c)
 	defer c08FilledPathIsUsed(c)
+	// ---- R8.12 "the reported PIT and CS sizes equal the true number of entries", as the
+	// management goroutine observes them: PitSize hands out a count that the forwarding
+	// thread writes on every Interest — it is read atomically or under a lock (the CS
+	// count's twin is C07 R7.9)
+	if ps := c.Fn("R8.12", "fw/table", "PitCsTree", "PitSize"); ps != nil {
+		atomicRead := false
+		core.Instrs(ps, func(in ssa.Instruction) {
+			if r, ok := in.(*ssa.Return); ok && len(r.Results) == 1 {
+				if cl, isCall := core.StripConv(r.Results[0]).(*ssa.Call); isCall {
+					if cal := cl.Call.StaticCallee(); cal != nil && cal.Pkg != nil && cal.Pkg.Pkg.Path() == "sync/atomic" {
+						atomicRead = true
+					}
+				}
+			}
+		})
+		_, heldT := core.EntryLocks(p, core.ModPath+"/fw/table")
+		locked := false
+		core.Instrs(ps, func(in ssa.Instruction) {
+			if _, ok := in.(*ssa.Return); ok && len(heldT[ps][in]) > 0 {
+				locked = true
+			}
+		})
+		c.Decide(atomicRead || locked, "R8.12", "pit-count-read-atomically", p.Pos(ps.Pos()), "PitSize reads the entry count atomically (or under a lock)", "PitSize returns a plain counter that the forwarding thread writes on every Interest while the management goroutine (status/general) reads it: a data race — the reported PIT size is not ordered with the insertions and removals it counts")
+	}
 
 	// ---- R8.1
 	if pii := c.Fn("R8.1", "fw/fw", "Thread", "processIncomingInterest"); pii != nil {
